@@ -243,6 +243,18 @@ theorem pipeline_accepts (spec : List Opt) (ini : List (Str × CfgVal)) (dodo : 
   unfold parseOnly
   simp only [hg', hp1, withPos, withDodo]
 
+/-! ### command-line variables -/
+
+theorem stripVars_id (argv : List Str) (h : NoVarWords argv = true) : stripVars argv = .ok argv := by
+  induction argv with
+  | nil => rfl
+  | cons a r ih =>
+    simp only [NoVarWords, List.all_cons, Bool.and_eq_true, bne_iff_ne, ne_eq, Bool.not_eq_true'] at h
+    have hr : NoVarWords r = true := by simpa [NoVarWords] using h.2
+    cases a with
+    | nil => exact absurd rfl h.1.1
+    | cons c t => simp [stripVars, ih hr, h.1.2]
+
 /-! ### config layers: `dict.update` per key -/
 
 theorem alookup_append {α β : Type _} [DecidableEq α] (k : α) (a b : List (α × β)) :
